@@ -10,3 +10,6 @@ pub mod props;
 pub mod rig;
 pub mod runner;
 pub mod types;
+/// shared with the 16-bit runner (/verif/harness16)
+#[path = "../../harness16/src/shared.rs"]
+pub mod shared16;
